@@ -72,4 +72,35 @@ def lockKind (s : String) : Kind :=
   | some p => p.kind
   | none => .anyone
 
+/-! ## witnesses: `json.Unmarshal([]byte(proof.Witness), &P2PKWitness | &HTLCWitness)` with the error ignored
+     (`VerifyP2PKLockedProof`, `VerifyHTLCProof`) or turned into `InvalidWitness` (`verifyBlindedMessages`) -/
+
+/-- what is left in the Go struct, with the signature STRINGS (the symbolic model numbers them) -/
+structure WitnessText where
+  jsonOk : Bool
+  signatures : List String
+  preimage : String
+  deriving DecidableEq, Repr, Inhabited
+
+def witnessMember (htlc : Bool) (w : WitnessText) (k : String) (v : JV) : WitnessText :=
+  if htlc && nameIs k "preimage" then
+    let r := laxString w.preimage v
+    { w with preimage := r.1, jsonOk := w.jsonOk && r.2 }
+  else if nameIs k "signatures" then
+    let r := laxStringList w.signatures v
+    { w with signatures := r.1, jsonOk := w.jsonOk && r.2 }
+  else w
+
+def witnessMembers (htlc : Bool) (w : WitnessText) : List (String × JV) → WitnessText
+  | [] => w
+  | (k, v) :: rest => witnessMembers htlc (witnessMember htlc w k v) rest
+
+/-- `htlc = false`: into `nut11.P2PKWitness` (a `preimage` member is unknown there); `true`: into `nut14.HTLCWitness` -/
+def parseWitness (htlc : Bool) (s : String) : WitnessText :=
+  match parse s with
+  | none => ⟨false, [], ""⟩                       -- syntax error (also the empty string): nothing is decoded
+  | some (.obj kvs) => witnessMembers htlc ⟨true, [], ""⟩ kvs
+  | some .null => ⟨true, [], ""⟩
+  | some _ => ⟨false, [], ""⟩                     -- not an object: type error
+
 end Gonuts.Model.Nut10Parse
